@@ -197,6 +197,7 @@ Record sparse_ok (p : sp) (new : bytes) (dest : option N) (p' : sp) (s : status)
   so_req : sreq p' = sreq p;
   so_K : forall u, K (abs p) (new ++ u) = s_dest s ++ K (abs p') u;
   so_R : forall u, R maxc (abs p) (new ++ u) = R maxc (abs p') u;
+  so_F : forall sg u, later_stream (abs p) sg -> F (Some sg) (abs p) (new ++ u) = F (Some sg) (abs p') u;
   so_out : exists o, output_buffer p' = output_buffer p ++ o /\ s_output s = len o;
   so_none : dest = None -> s_dest s = [] /\ exists d, stream_buffer p' = stream_buffer p ++ d /\ s_stream s = len d;
   so_some : forall c, dest = Some c -> stream_buffer p' = [] /\ s_stream s = len (s_dest s) /\ len (s_dest s) <= c
@@ -228,6 +229,7 @@ Proof.
     - exact C3.
     - intros u. apply (CL u).
     - intros u. apply (RL u).
+    - intros sg u Hls. apply (later_law maxc (abs p) new dest u (abs p') s sg Hinv Hleg Hls Hres).
     - exact R2.
     - exact C4.
     - exact C5. }
@@ -306,7 +308,10 @@ Record acct (new : bytes) (r : rstate) (w : world) (dl : bytes) (r' : rstate) (w
   ac_ws : suffix (wscript w') (wscript w);
   ac_K : K (abs (rsp r)) (new ++ remaining w) = dl ++ K (abs (rsp r')) (remaining w');
   ac_R : exists fl, wlog w' = wlog w ++ fl /\
-                    R maxc (abs (rsp r)) (new ++ remaining w) = fl ++ R maxc (abs (rsp r')) (remaining w')
+                    R maxc (abs (rsp r)) (new ++ remaining w) = fl ++ R maxc (abs (rsp r')) (remaining w');
+  (* streams later in the role's order than the active one are not touched *)
+  ac_F : forall sg, later_stream (abs (rsp r)) sg ->
+           F (Some sg) (abs (rsp r)) (new ++ remaining w) = F (Some sg) (abs (rsp r')) (remaining w')
 }.
 
 Lemma acct_refl r w : pinv (rsp r) -> acct [] r w [] r w.
@@ -343,6 +348,9 @@ Proof.
   - destruct (ac_R _ _ _ _ _ _ A) as (f1 & L1 & R1). destruct (ac_R _ _ _ _ _ _ B) as (f2 & L2 & R2).
     exists (f1 ++ f2). split; [rewrite L2, Hl, L1, app_assoc; reflexivity|].
     rewrite R1, Hb, R2, app_assoc. reflexivity.
+  - intros sg Hls. rewrite (ac_F _ _ _ _ _ _ A sg Hls), Hb. apply (ac_F _ _ _ _ _ _ B sg).
+    unfold later_stream in *. cbn [abs a_stream a_req] in *.
+    rewrite (ac_stream _ _ _ _ _ _ A), (ac_req _ _ _ _ _ _ A). exact Hls.
 Qed.
 
 Lemma acct_trans0 r w d1 r1 w1 d2 r2 w2 :
@@ -358,6 +366,7 @@ Proof.
   - rewrite H3. apply (ac_ws _ _ _ _ _ _ A).
   - rewrite H1. apply (ac_K _ _ _ _ _ _ A).
   - rewrite H1, H2. apply (ac_R _ _ _ _ _ _ A).
+  - intros sg Hls. rewrite H1. apply (ac_F _ _ _ _ _ _ A sg Hls).
 Qed.
 
 (* the outcome of the parsing loop of poll_input *)
@@ -403,6 +412,7 @@ Proof.
         + apply suffix_refl.
         + apply (so_K _ _ _ _ _ SO).
         + exists []. rewrite app_nil_r. split; [reflexivity|apply (so_R _ _ _ _ _ SO)].
+        + intros sg Hls. apply (so_F _ _ _ _ _ SO sg _ Hls).
       - cbn [il_case rsp]. left. exists e. split; [reflexivity|]. split; [exact He|]. split; [exact Hk|].
         split; [intros Hn; apply (so_none _ _ _ _ _ SO Hn)|intros c Hc; apply (so_some _ _ _ _ _ SO c Hc)].
       - cbn [rwriteable is_inl andb]. rewrite orb_false_r. reflexivity. }
@@ -424,6 +434,7 @@ Proof.
       + apply suffix_refl.
       + apply (so_K _ _ _ _ _ SO).
       + exists []. rewrite app_nil_r. split; [reflexivity|apply (so_R _ _ _ _ _ SO)].
+      + intros sg Hls. apply (so_F _ _ _ _ _ SO sg _ Hls).
     - cbn [il_case]. rewrite H2. split; [reflexivity|]. split.
       + intros H0. apply Hend. rewrite H0 in Edone. change (0 <? 0) with false in Edone. rewrite orb_false_r in Edone. exact Edone.
       + destruct dest as [c|].
@@ -460,6 +471,11 @@ Proof.
   { intros u. rewrite (so_R _ _ _ _ _ SO u), P5.
     rewrite <- (R_split (abs (compress p1)) fl (output_buffer (rsp r3)) u) by exact P4.
     rewrite CA. reflexivity. }
+  assert (PF : forall sg u, later_stream (abs (rsp r)) sg ->
+            F (Some sg) (abs (rsp r)) (new ++ u) = F (Some sg) (abs (rsp r3)) u).
+  { intros sg u Hls. rewrite (so_F _ _ _ _ _ SO sg u Hls), P5.
+    change (F (Some sg) (set_out (abs (compress p1)) (output_buffer (rsp r3))) u) with (F (Some sg) (abs (compress p1)) u).
+    rewrite CA. reflexivity. }
   assert (PRE : forall w1, remaining w1 = remaining w0 -> wlog w1 = wlog w0 -> wscript w1 = wscript w0 ->
             acct new r w [] r3 w1).
   { intros w1 Q1 Q2 Q3. constructor.
@@ -469,7 +485,8 @@ Proof.
     - exists []. rewrite Q1, Prem. reflexivity.
     - rewrite Q3. exact P3.
     - rewrite Q1, Prem. apply PK.
-    - exists fl. split; [rewrite Q2; exact P1|]. rewrite Q1, Prem. apply PR. }
+    - exists fl. split; [rewrite Q2; exact P1|]. rewrite Q1, Prem. apply PR.
+    - intros sg Hls. rewrite Q1, Prem. apply PF. exact Hls. }
   assert (Hsb3 : stream_buffer (rsp r3) = stream_buffer (rsp r)) by (rewrite P6, V2; exact Hsb1).
   assert (Hwr3 : forall q, rwriteable r3 = rwriteable r || (false && q)) by (intros q; rewrite orb_false_r; exact P11).
   destruct po as [[u|k]| |].
@@ -539,6 +556,7 @@ Proof.
     + exact P3.
     + rewrite Prem, P5, K_set_out. reflexivity.
     + exists fl. split; [exact P1|]. rewrite Prem, P5. apply R_split. exact P4.
+    + intros sg _. rewrite Prem, P5. reflexivity.
   - intros e He. rewrite P5. exact He.
   - intros He. rewrite P5. exact He.
   - intros Ho. destruct fuel as [|f]; [lia|]. cbn [poll_output] in E. rewrite Ho in E.
@@ -631,7 +649,7 @@ Proof.
       assert (Hn : 0 < n /\ n <= c /\ n <= len (x :: sb)) by (subst n c; rewrite len_cons; lia).
       destruct Hinv as [HRI HI].
       pose proof (consume_stream_abs (rsp r) n HRI) as CA.
-      destruct (consume_stream_law maxc (abs (rsp r)) n (remaining w)) as (CK & CR & _).
+      destruct (consume_stream_law maxc (abs (rsp r)) n (remaining w)) as (CK & CR & CF).
       change (a_parsed (abs (rsp r))) with (stream_buffer (rsp r)) in CK. rewrite Esb in CK.
       replace (N.min n (len (x :: sb))) with n in CK by lia.
       exists (take n (x :: sb)). split; [|split].
@@ -643,6 +661,7 @@ Proof.
         -- apply suffix_refl.
         -- rewrite CA. exact CK.
         -- exists []. rewrite app_nil_r. split; [reflexivity|]. rewrite CA, CR. reflexivity.
+        -- intros sg _. rewrite CA, CF. reflexivity.
       * cbn [pi_case]. split; [reflexivity|]. rewrite len_take. split; [lia|]. split; [lia|]. intros _ H0. lia.
       * unfold poll_parses. rewrite Esb. cbn [rwriteable andb]. rewrite orb_false_r. reflexivity.
   - unfold poll_input in E. cbv zeta in E. destruct (stream_buffer (rsp r)) as [|x sb] eqn:Esb.
